@@ -46,6 +46,10 @@ theorem C06_check_sound (I : Interp V) (hI : I.Sound R K) (p : Prog) :
     have hl := run_linR (K := K) hI p h
     exact ⟨fun a b x y => by rw [hl.map_add, hl.map_smul, hl.map_smul], isLinearMap_zero_at hl⟩
 
+/-- the generated obligations are stated with `checkFast`, the same checker in an evaluation order the
+    kernel reduces quickly; it computes `check` -/
+theorem C06_checkFast_eq_check (p : Prog) : checkFast p = check p := checkFast_eq_check p
+
 /-- the accepted program is (the underlying function of) a `K`-linear map -/
 theorem C06_check_linC_linearMap (I : Interp V) (hI : I.Sound R K) (p : Prog) (h : check p = .linC) :
     ∃ f : (Fin p.nin → V) →ₗ[K] (Fin p.outs.length → V), ∀ x, f x = run I p x :=
@@ -128,6 +132,7 @@ example : vecInterp.Sound ℝ ℂ := vecInterp_sound
 
 -- forward difference: accepted, so ℂ-linear by the theorem, and it denotes x(i+1) - x(i)
 example : check fdProg = .linC := by decide
+example : checkFast fdProg = .linC := by decide +kernel   -- the form of the generated obligations
 example (a b : ℂ) (x y : Fin 1 → Vc) :
     run vecInterp fdProg (a • x + b • y) = a • run vecInterp fdProg x + b • run vecInterp fdProg y :=
   ((C06_check_sound vecInterp vecInterp_sound fdProg).1 (by decide)).1 a b x y
